@@ -37,6 +37,8 @@
 #include <stdarg.h>
 #include <ctype.h>
 #include <unistd.h>
+#include <errno.h>
+#include <stdint.h>
 #include <sys/time.h>
 #include "qinternal.h"
 #include "utilities/qencode.h"
@@ -245,11 +247,16 @@ char *qstrreplace(const char *mode, char *srcstr, const char *tokstr,
     newstr = newp = srcp = tokenp = retp = NULL;
 
     char method = mode[0], memuse = mode[1];
-    int maxstrlen, tokstrlen;
+    size_t maxstrlen, tokstrlen;
 
     /* Put replaced string into malloced 'newstr' */
     if (method == 't') { /* Token replace */
-        maxstrlen = strlen(srcstr) * ((strlen(word) > 0) ? strlen(word) : 1);
+        size_t wordlen = (strlen(word) > 0) ? strlen(word) : 1;
+        if (strlen(srcstr) > (SIZE_MAX - 1) / wordlen) {
+            errno = ENOMEM;
+            return NULL;
+        }
+        maxstrlen = strlen(srcstr) * wordlen;
         newstr = (char *) malloc(maxstrlen + 1);
         if (newstr == NULL)
             return NULL;
@@ -270,6 +277,11 @@ char *qstrreplace(const char *mode, char *srcstr, const char *tokstr,
         *newp = '\0';
     } else if (method == 's') { /* String replace */
         if (strlen(word) > strlen(tokstr)) {
+            if (strlen(srcstr) / strlen(tokstr)
+                    > (SIZE_MAX - strlen(tokstr)) / strlen(word)) {
+                errno = ENOMEM;
+                return NULL;
+            }
             maxstrlen = ((strlen(srcstr) / strlen(tokstr)) * strlen(word))
                     + (strlen(srcstr) % strlen(tokstr));
         } else {
